@@ -165,13 +165,36 @@ func ringCoords(r *rand.Rand, o *DocOpts, n int, d0 int) *V {
 func rectRing(r *rand.Rand, o *DocOpts) *V {
 	x0, y0 := r.Intn(2*o.Span)-o.Span, r.Intn(o.Span)-o.Span/2
 	w, h := 1+r.Intn(4), 1+r.Intn(4)
-	pt := func(x, y int) *V { return arr(num(strconv.Itoa(x)), num(strconv.Itoa(y))) }
-	ring := arr(pt(x0, y0), pt(x0+w, y0), pt(x0+w, y0+h), pt(x0, y0+h), pt(x0, y0))
-	switch r.Intn(5) {
+	if o.OutOfRange && r.Intn(6) == 0 {
+		// a rectangle that leaves the valid range
+		switch r.Intn(3) {
+		case 0:
+			x0, w = 178, 1+r.Intn(5)
+		case 1:
+			y0, h = 88, 1+r.Intn(5)
+		default:
+			x0, y0 = -183, -92
+		}
+	}
+	c := [][2]float64{{float64(x0), float64(y0)}, {float64(x0 + w), float64(y0)}, {float64(x0 + w), float64(y0 + h)}, {float64(x0), float64(y0 + h)}, {float64(x0), float64(y0)}}
+	switch r.Intn(8) {
 	case 0: // near miss: clockwise
-		ring = arr(pt(x0, y0), pt(x0, y0+h), pt(x0+w, y0+h), pt(x0+w, y0), pt(x0, y0))
+		c = [][2]float64{c[0], c[3], c[2], c[1], c[0]}
 	case 1: // near miss: starts at another corner
-		ring = arr(pt(x0+w, y0), pt(x0+w, y0+h), pt(x0, y0+h), pt(x0, y0), pt(x0+w, y0))
+		c = [][2]float64{c[1], c[2], c[3], c[0], c[1]}
+	case 2, 3: // near miss: one ordinate of one corner is off (trapezoids, slanted edges)
+		k := 1 + r.Intn(3)
+		d := []float64{0.5, -0.5, 1, -1, 3}[r.Intn(5)]
+		c[k][r.Intn(2)] += d
+	case 4: // near miss: the first (and closing) corner is off
+		d := []float64{0.5, -0.5, 1}[r.Intn(3)]
+		k := r.Intn(2)
+		c[0][k] += d
+		c[4][k] += d
+	}
+	ring := arr()
+	for _, p := range c {
+		ring.El = append(ring.El, arr(num(strconv.FormatFloat(p[0], 'f', -1, 64)), num(strconv.FormatFloat(p[1], 'f', -1, 64))))
 	}
 	return ring
 }
@@ -190,6 +213,9 @@ func polyCoords(r *rand.Rand, o *DocOpts) *V {
 		n := 3 + r.Intn(max(1, o.MaxPts-2))
 		if o.BigOften && r.Intn(12) == 0 {
 			n = 60 + r.Intn(10)
+			if r.Intn(8) == 0 {
+				n = 255 + r.Intn(80) // beyond 256 segments
+			}
 		}
 		d := d0
 		if i > 0 && o.MixedDims && r.Intn(6) == 0 {
